@@ -226,7 +226,7 @@ class Sym:
             return Sym(r)
         if isinstance(e, (float, np.floating, Fraction)):
             fr = Fraction(e).limit_denominator(64)
-            if float(fr) != float(e):
+            if abs(float(fr) - float(e)) > 1e-12:  # (1/3 - 1)/2 arrives as -0.33333333333333337: the rational it rounds is meant
                 raise EngineError(f"power {e}")
             return Sym(frac_power(self.p, fr))
         raise EngineError(f"power with exponent {type(e).__name__}")
